@@ -149,7 +149,7 @@ func runWorker(opt Options, c *Check, shard, n int, deadline time.Time, out *mer
 		msg := firstFatalLine(stderr.String())
 		site := fatalSite(stderr.String())
 		d := Deviation{Prop: opt.Prop, Index: culprit, Tier: opt.Tier, Fields: Fields{"index": strconv.FormatInt(culprit, 10)},
-			Input: fmt.Sprintf("(case index %d of %s/%s; input recovered by --only replay)", culprit, opt.Prop, opt.Tier),
+			Input:    fmt.Sprintf("(case index %d of %s/%s; input recovered by --only replay)", culprit, opt.Prop, opt.Tier),
 			Expected: "worker survives the case", Observed: kind + ": " + msg + " at " + site, Sig: kind + "@" + site}
 		// ask a fresh worker to describe the case (it prints DESCRIBE before running it)
 		if desc, fields := describeCase(exe, opt, culprit); desc != "" {
@@ -428,6 +428,34 @@ func Coordinate(opt Options) int {
 			oneLine(d.Input, 300), oneLine(d.Expected, 200), oneLine(d.Observed, 200))
 	}
 
+	// auxiliary free-running -race pass (non-deciding; see DESIGN.md)
+	var racePass map[string]interface{}
+	if c.RacePass && opt.OnlyIndex < 0 {
+		secs := 8
+		if opt.Tier == "thorough" {
+			secs = 90
+		}
+		racePass = runRacePass(opt.Prop, secs)
+		if rep, ok := racePass["report"].(string); ok && rep != "" {
+			d := Deviation{Prop: opt.Prop, Index: -1, Tier: opt.Tier, Fields: Fields{"pass": "free-running -race"},
+				Input: "free-running harness bodies under the Go race detector", Expected: "no data race, no crash", Observed: rep, Sig: "race-pass:" + fmt.Sprint(racePass["class"])}
+			matched := false
+			for _, f := range ff.Findings {
+				if f.Matches(&d) {
+					m.Known[f.ID]++
+					matched = true
+					break
+				}
+			}
+			if !matched {
+				violations++
+				path := writeReplay(d)
+				lines = append(lines, fmt.Sprintf("VIOLATION property=%s replay=%s", opt.Prop, path))
+				fmt.Printf("  race pass: %s\n", oneLine(rep, 600))
+			}
+		}
+	}
+
 	// known findings
 	ids := make([]string, 0, len(m.Known))
 	for id := range m.Known {
@@ -483,6 +511,10 @@ func Coordinate(opt Options) int {
 		"unreproduced":                  unrepro,
 		"explanation":                   c.Explanation,
 	}
+	if racePass != nil {
+		delete(racePass, "report")
+		cov["auxiliary_race_pass"] = racePass
+	}
 	if cov["caps_hit"] == nil {
 		cov["caps_hit"] = []string{}
 	}
@@ -508,6 +540,37 @@ func Coordinate(opt Options) int {
 		return 1
 	}
 	return 0
+}
+
+// runRacePass runs bin/vrace (built with -race by scripts/check.sh).
+func runRacePass(prop string, secs int) map[string]interface{} {
+	out := map[string]interface{}{"seconds": secs, "deciding": false}
+	exe := filepath.Join(VerifDir, "bin", "vrace")
+	if _, err := os.Stat(exe); err != nil {
+		out["status"] = "vrace binary missing"
+		return out
+	}
+	cmd := exec.Command(exe, prop, "--seconds", strconv.Itoa(secs))
+	var so, se bytes.Buffer
+	cmd.Stdout = &so
+	cmd.Stderr = &limitedWriter{max: 1 << 17, buf: &se}
+	cmd.Env = append(os.Environ(), "GORACE=halt_on_error=1 exitcode=66")
+	err := cmd.Run()
+	out["summary"] = strings.TrimSpace(so.String())
+	es := se.String()
+	switch {
+	case strings.Contains(es, "WARNING: DATA RACE"):
+		out["class"] = "data-race"
+		out["report"] = es
+		out["status"] = "race reported"
+	case err != nil:
+		out["class"] = "crash"
+		out["report"] = firstFatalLine(es) + "\n" + es
+		out["status"] = "crashed: " + firstFatalLine(es)
+	default:
+		out["status"] = "no race observed (a sampler: not exhaustive)"
+	}
+	return out
 }
 
 func uniq(xs []string, max int) []string {
